@@ -344,6 +344,17 @@ func (fc *FnCtx) transIdent(env *Env, name string) (Val, types.Type) {
 		}
 	}
 	if env.cells != nil {
+		// idxN: the hidden index cell of range-over-slice loop N (value at the loop head: index
+		// of the last element already processed, -1 before the first)
+		var ord int
+		if n, err := fmt.Sscanf(name, "idx%d", &ord); n == 1 && err == nil && fmt.Sprintf("idx%d", ord) == name {
+			if a := fc.rangeIndexCell(ord); a != nil {
+				if v, ok := env.st.cells[a]; ok {
+					return v, types.Typ[types.Int]
+				}
+			}
+			fc.tfail("no range index cell for loop %d in scope", ord)
+		}
 		if v, ok := env.cells(name); ok {
 			return v.v, v.t
 		}
@@ -632,7 +643,7 @@ func (fc *FnCtx) indexVal(env *Env, x *Term, xt types.Type, i *Term) (Val, types
 	case *types.Slice:
 		key, es := fc.elemKey(u.Elem())
 		m := fc.heapGet(env.st, key, ArraySort("Ref", ArraySort("Int", es)))
-		return tb.Select(tb.Select(m, tb.App("s_arr", "Ref", x)), tb.Add(tb.App("s_off", "Int", x), i)), u.Elem()
+		return tb.Select(tb.Select(m, tb.App("s_arr", "Ref", x)), tb.SIdx(tb.App("s_off", "Int", x), i)), u.Elem()
 	case *types.Array:
 		return tb.Select(x, i), u.Elem()
 	case *types.Map:
@@ -741,6 +752,14 @@ func (fc *FnCtx) transCall(env *Env, e *CCall) (Val, types.Type) {
 				}
 			}
 			fc.tfail("visited(): no map iteration with key sort %s", k.Sort)
+		case "atoiOK", "atoiVal":
+			// the two uninterpreted functions behind the strconv.Atoi / strconv.Itoa library model
+			s, _ := argT(0)
+			libModels["strconv.Itoa"](fc, env.st, []Val{tb.Int(0)}) // make sure the model's axioms are present
+			if id.Name == "atoiOK" {
+				return tb.App(tb.DeclFun("strconv_AtoiOK", []string{"Str"}, "Bool"), "Bool", s), boolT
+			}
+			return tb.App(tb.DeclFun("strconv_AtoiVal", []string{"Str"}, "Int"), "Int", s), intT
 		case "infunc":
 			s, ok := e.Args[0].(*CStr)
 			if !ok {
